@@ -269,10 +269,10 @@ def check(prop, tier, seed, t0):
                     # the input is attributed to the undecided obligations of the clauses it falsifies (to the first undecided obligation of
                     # the function when it falsifies a clause of another kind, e.g. an undeclared exception)
                     bad_labels = [f_[5:-9] for f_ in hit['native']['failed'] if f_.startswith('post:') and f_.endswith(' is false')]
-                    mine = any((o.get('label') or '') == b_ or (o.get('label') or '').startswith(b_ + '.') for b_ in bad_labels)
+                    is_mine = any((o.get('label') or '') == b_ or (o.get('label') or '').startswith(b_ + '.') for b_ in bad_labels)
                     first = not any(r_ is res for r_, _o in violations)
-                    if not (mine or (first and not any((o2.get('label') or '') == b_ or (o2.get('label') or '').startswith(b_ + '.')
-                                                       for o2 in res['obligations'] for b_ in bad_labels if o2['verdict'] not in ('discharged', 'reachable')))):
+                    if not (is_mine or (first and not any((o2.get('label') or '') == b_ or (o2.get('label') or '').startswith(b_ + '.')
+                                                       for o2 in mine for b_ in bad_labels if o2['verdict'] not in ('discharged', 'reachable')))):
                         hit = None
                 if hit is not None and o['id'] not in failing_ids:
                     failing_ids.add(o['id'])
